@@ -4,6 +4,9 @@ import json
 props = [json.loads(l) for l in open('/verif/properties.jsonl')]
 ASSUME = "Trusted base: the simulator (simrt scheduler, simetcd/simnet/simdisk/simtikv models), the go/ast rewrite (R1-R5) of a scratch copy of /repo, the deterministic-runtime overlay, and the oracle code. etcd, gRPC, TiKV and the OS clock are models; interleavings are explored at seams only; sampling, not proof."
 claimed = {
+ "C05": dict(level="exploration", engine="e1", design="7/C05",
+   text="Seeded search: 3 real PD members in 1-3 dc-locations with Local TSO enabled (real local-allocator election loops and the real estimate / SyncMaxTS / differentiate protocol over the simulated network), optionally a datacenter joining later, local clients per datacenter and global clients, optionally under crash / partition / etcd-leader-move / net-cut / resign. Oracles: timestamps of different allocators never equal; global above every local completed before it began and local after a completed global above it; suffix per dc assigned once, unique, and the reported suffix width covers every suffix assigned before the request; per-allocator C01 order/uniqueness. Several genuine gaps of the (experimental) Local TSO feature around stale in-memory dc-location/suffix views are listed as known findings; one (duplicate Global TSO for concurrent requests) was repaired.",
+   technique="deterministic simulation with cross-allocator history oracle"),
  "C15": dict(level="exploration", engine="e1", design="7/C15",
    text="Seeded search over interleavings of 2-5 concurrent UpdateGCSafePoint/GetGCSafePoint clients against the real handlers of a bootstrapped leader at the granularity of individual storage reads and writes (optionally with clean storage failures, delays, per-task freezes). The recorded history is checked with porcupine against a max-register (failed updates: maybe applied at any later time); a commit hook in the simulated etcd asserts that the stored safe point never decreases; a sequential service-safe-point client is checked operation by operation against the stored entries (min never above a live service, below-min registration not recorded, gc_worker entry always present with infinite TTL, expired / non-positive-TTL entries gone).",
    technique="deterministic simulation; porcupine linearizability check against a max-register model plus commit-level monotonicity invariant"),
